@@ -31,6 +31,9 @@ type c3fCase struct {
 	// whatever gengo does with text rendered before such a return, the import block must match what is in the file
 	SkipRef string `json:"skipref,omitempty"`
 	SkipErr string `json:"skiperr,omitempty"`
+	// UnusedArg: a reference bound to a template argument that the template text never mentions (a shared argument set):
+	// its package is not referenced from the body and must not be imported
+	UnusedArg string `json:"unusedarg,omitempty"`
 }
 
 var c3fDirPool = []string{
@@ -79,6 +82,9 @@ func genC03File(t *rapid.T) c3fCase {
 		c.SkipRef = rapid.SampledFrom([]string{"time.Duration", "os.File", "net/url.URL", "crypto/rand.Reader"}).Draw(t, "skiprefv")
 		c.SkipErr = rapid.SampledFrom([]string{"skip", "ignore", "wrapskip"}).Draw(t, "skiperr")
 	}
+	if rapid.IntRange(0, 2).Draw(t, "unusedarg") == 0 {
+		c.UnusedArg = rapid.SampledFrom([]string{"net/http.Client", "bufio.Reader", "container/list.List", "hash/crc32.Table"}).Draw(t, "unusedargv")
+	}
 	return c
 }
 
@@ -97,6 +103,13 @@ func (c c3fCase) module() (modspec.Mod, []string) {
 		{Kind: "struct", Name: "Own", Fields: []modspec.Field{{Names: []string{"A"}, Type: "int"}}},
 	}}}})
 	return m, refs
+}
+
+func unusedOf(c c3fCase) []string {
+	if c.UnusedArg == "" {
+		return nil
+	}
+	return []string{c.UnusedArg}
 }
 
 func oracleC03File(c c3fCase) error {
@@ -124,7 +137,7 @@ func oracleC03File(c c3fCase) error {
 		text += fmt.Sprintf("var _g @R%d\n", len(all)-1)
 	}
 	s := &script.Script{Name: "g", Mode: "fixed", PerType: map[string]script.Action{
-		c.ModPath + "/target.Target": {Render: []script.Piece{{Kind: "t", Text: text, Refs: all}}},
+		c.ModPath + "/target.Target": {Render: []script.Piece{{Kind: "t", Text: text, Refs: all, Unused: unusedOf(c)}}},
 	}}
 	if c.SkipRef != "" {
 		decl := "\nvar _skipped @R0\n"
